@@ -556,6 +556,9 @@ def c18_load_plan(order, modules):
     return plan
 
 
+C18_BROKEN = "mbroken"
+
+
 class CacheWorld:
     def __init__(self, parent_tmp, modules):
         import tempfile
@@ -570,6 +573,8 @@ class CacheWorld:
                 raise common.HarnessError(f"a module named {t!r} is already imported")
         sys.dont_write_bytecode = True
         sys.path.insert(0, self.root)
+        with open(os.path.join(self.root, C18_BROKEN + ".py"), "w") as fh:
+            fh.write("def broken(:\n    pass\n")
         self.restore(self.initial())
 
     def close(self):
@@ -742,7 +747,15 @@ def c18_do_run(hooked, ck, order, modules, cheap_probe=False, write=True):
     sys.dont_write_bytecode = not write
     try:
         if ck != "nohook":
-            mgr = jaxtyping.install_import_hook(list(hooked), None if ck == "n" else spyck.PATH[ck])
+            # the hook also covers a module that does not compile; importing it fails (and the
+            # application tolerates that) before the run proper: a cache-name patch that is not
+            # undone on this path would poison every later import of the run
+            mgr = jaxtyping.install_import_hook(list(hooked) + [C18_BROKEN], None if ck == "n" else spyck.PATH[ck])
+            try:
+                importlib.import_module(C18_BROKEN)
+                outcome = "raised:BrokenModuleImported:"
+            except SyntaxError:
+                pass
         try:
             for m in order:
                 importlib.import_module(m)
